@@ -2,6 +2,7 @@ package main
 
 import (
 	"fmt"
+	"go/constant"
 	"go/token"
 	"go/types"
 	"sort"
@@ -155,7 +156,7 @@ func (fr *Frame) bindParams(ci calleeInfo, ct *Contract, args []Val) map[string]
 			if n := ps.At(j).Name(); n != "" && n != "_" {
 				names[n] = v
 			}
-			names[fmt.Sprintf("a%d", j)] = v
+			names[fmt.Sprintf("$%d", j)] = v
 			if ct != nil && j < len(ct.ParamNames) && ct.ParamNames[j] != "_" {
 				names[ct.ParamNames[j]] = v
 			}
@@ -254,6 +255,11 @@ func (fr *Frame) call(in ssa.Instruction, c *ssa.CallCommon) []Val {
 		return h.run(fr, in, c, ci, args)
 	}
 	ct := ex.findContract(ci)
+	if ct != nil && ct.Inline && ci.fn != nil && len(ci.fn.Blocks) > 0 {
+		if res, ok := fr.tryInline(in, ci.fn, args, nil); ok {
+			return res
+		}
+	}
 	if ct != nil {
 		ex.usedSpecs[ct.Key] = true
 		return fr.applyContract(in, ci, ct, args, pos)
@@ -306,6 +312,10 @@ func (fr *Frame) freshResults(sig *types.Signature, hint string) []Val {
 func (fr *Frame) applyContract(in ssa.Instruction, ci calleeInfo, ct *Contract, args []Val, pos token.Pos) []Val {
 	ex := fr.ex
 	names := fr.bindParams(ci, ct, args)
+	// variadic string arguments built from literals get a stable key (e.g. "status.observedGeneration")
+	if cc := callCommonOf(in); cc != nil && ci.sig != nil && ci.sig.Variadic() && len(cc.Args) > 0 {
+		names["varargs_key"] = fr.varargsKey(cc.Args[len(cc.Args)-1])
+	}
 	pre := fr.curMem
 	// requires
 	for i, rq := range ct.Requires {
@@ -709,4 +719,53 @@ func (fr *Frame) inlineClosure(in ssa.Instruction, mc *ssa.MakeClosure, args []V
 	}
 	ci := calleeInfo{display: canonNameAny(fn), sig: fn.Signature}
 	return fr.unknownCall(ci, args)
+}
+
+func callCommonOf(in ssa.Instruction) *ssa.CallCommon {
+	switch x := in.(type) {
+	case *ssa.Call:
+		return &x.Call
+	case *ssa.Defer:
+		return &x.Call
+	case *ssa.Go:
+		return &x.Call
+	}
+	return nil
+}
+
+// varargsKey: "a.b.c" literal when the variadic strings are constants, else an arbitrary string.
+func (fr *Frame) varargsKey(v ssa.Value) Val {
+	ex := fr.ex
+	sl, ok := v.(*ssa.Slice)
+	if ok {
+		if al, ok := sl.X.(*ssa.Alloc); ok {
+			if at, ok := al.Type().Underlying().(*types.Pointer).Elem().Underlying().(*types.Array); ok {
+				parts := make([]string, at.Len())
+				found := 0
+				for _, ref := range *al.Referrers() {
+					ia, ok := ref.(*ssa.IndexAddr)
+					if !ok {
+						continue
+					}
+					k, ok := ia.Index.(*ssa.Const)
+					if !ok {
+						continue
+					}
+					idx, _ := constant.Int64Val(k.Value)
+					for _, r2 := range *ia.Referrers() {
+						if st, ok := r2.(*ssa.Store); ok && st.Addr == ia {
+							if c, ok := st.Val.(*ssa.Const); ok && c.Value != nil && c.Value.Kind() == constant.String {
+								parts[idx] = constant.StringVal(c.Value)
+								found++
+							}
+						}
+					}
+				}
+				if found == int(at.Len()) {
+					return Val{T: ex.D.strLit(strings.Join(parts, ".")), S: SStr}
+				}
+			}
+		}
+	}
+	return Val{T: ex.fresh("varargs_key", SStr), S: SStr}
 }
